@@ -85,11 +85,11 @@ Draw(ts, text, pos) ==
   [ret |-> r.ret, map |-> RasterOfPic(r.pic), bbox |-> BoundingBoxT(F, Sty, ts, text, pos, Variant)]
 Obs ==
   LET tl == NormalizeCRLF(cfg.text)
-      ls == SplitLF(tl)
+      ls == TrueLines(cfg.text)
       lh == LineHeightA(TS.lh, F.ch)
       whole == [ret |-> tm.next, map |-> RasterOfPic(tm.pic), bbox |-> BoundingBoxT(F, Sty, TS, cfg.text, Pos, Variant)]
       lf == IF tl = cfg.text THEN whole ELSE Draw(TS, tl, Pos)
-      single == ~HasCRorLF(cfg.text) /\ cfg.align = 0
+      single == ~HasLF(cfg.text) /\ cfg.align = 0
   IN [font |-> F, text |-> cfg.text, pos |-> Pos, align |-> cfg.align, base |-> cfg.base, lh |-> TS.lh, sty |-> Sty,
       whole |-> whole,
       lf |-> [text |-> tl, ret |-> lf.ret, map |-> lf.map, bbox |-> lf.bbox],
